@@ -134,39 +134,13 @@ def CEILING(
         raise xlerrors.NumExcelError('significance below zero and number \
                                       above zero is not allowed')
 
-    number = float(number)
-    significance = float(significance)
-
-    ceiling = significance * math.ceil(number / significance)
-
-    # If number is an exact multiple of significance, no rounding occurs
-    if (number % significance) == 0:
-        return ceiling
-
-    quantize_multiplier = str(significance % 1)
-
-    # If number is negative, and significance is negative, the value is
-    # rounded down, away from zero.
-    if number < 0 and significance < 0:
-        result = decimal.Decimal(ceiling)
-        result = result.quantize(decimal.Decimal(quantize_multiplier),
-                                 rounding=decimal.ROUND_DOWN)
-        return float(result)
-
-    # If number is negative, and significance is positive, the value is
-    # rounded up towards zero.
-    if number < 0 < significance:
-        result = decimal.Decimal(ceiling)
-        result = result.quantize(decimal.Decimal(quantize_multiplier),
-                                 rounding=decimal.ROUND_UP)
-        return float(result)
-
-    # Regardless of the sign of number, a value is rounded up when adjusted
-    # away from zero.
-    result = decimal.Decimal(ceiling)
-    result = result.quantize(decimal.Decimal(quantize_multiplier),
-                             rounding=decimal.ROUND_UP)
-    return float(result)
+    # Work on the decimal representations of the arguments: in binary
+    # floating point 0.3 / 0.1 is not 3 and 0.05 * 112 is not 5.6.
+    number = decimal.Decimal(str(float(number)))
+    significance = decimal.Decimal(str(float(significance)))
+    multiples = (number / significance).to_integral_value(
+        rounding=decimal.ROUND_CEILING)
+    return float(multiples * significance)
 
 
 @xl.register()
@@ -295,7 +269,12 @@ def FLOOR(
     if significance == 0:
         raise xlerrors.DivZeroExcelError()
 
-    return significance * math.floor(number / significance)
+    # See CEILING: the arithmetic is decimal, not binary.
+    number = decimal.Decimal(str(float(number)))
+    significance = decimal.Decimal(str(float(significance)))
+    multiples = (number / significance).to_integral_value(
+        rounding=decimal.ROUND_FLOOR)
+    return float(multiples * significance)
 
 
 @xl.register()
@@ -710,6 +689,4 @@ def TRUNC(
     if num_digits == 0:
         return math.trunc(number)
 
-    num_digits = int(num_digits)
-
-    return math.trunc(number * 10**num_digits) / 10**num_digits
+    return _round(number, num_digits, _rounding=decimal.ROUND_DOWN)
